@@ -225,3 +225,92 @@ def make_cb(prog, presence):
                 res['samples'].append({'presence': presence, 'backup_changes': got})
         return h, on_path, res
     return mk_
+
+
+# ---------------------------------------------------------------------------- nested names around '/'
+NESTED = [('/conf', 'Dir'), ('/conf.d', 'Dir'), ('/src', 'Dir'), ('/src-old', 'Dir'), ('/conf/sub', 'Dir'), ('/conf/sub/x', 'File'),
+          ('/conf.d/y', 'File'), ('/src/m', 'File'), ('/src-old/n', 'File')]
+
+
+def make_nested(prog, removed, added, callback):
+    """Stored version = NESTED minus `added`; live tree = NESTED minus `removed`.  Everything else is unchanged, so the
+    comparison must report exactly the removed and added paths (alignment of the two streams across names with bytes below '/')."""
+    cands = [n for n, _ in prog.fn_index.get((None, None, 'diff'), []) if n in ('diff', 'diff::diff')]
+    if len(cands) != 1:
+        raise Unsupported('diff() not found in MIR')
+    diff_name = cands[0]
+    nxt = A.fn_by(prog, 'Diff', None, 'next')
+    order = sorted(NESTED, key=lambda pk: B.apath_key(pk[0]))
+
+    def mk_():
+        res = {'bad': [], 'samples': []}
+
+        def h(ex):
+            st, ar = A.new_archive(ex)
+            ents = [A.mk_entry(ex, '/', 'Dir', 5, mode=0o755, owner=A.mk_owner(ex, 'root', 'root'))]
+            files = [B.SrcFile('/', 'Dir', mtime=B.TimeV(5, 0), mode=0o755, user='root', group='root')]
+            for i, (p, k) in enumerate(order):
+                size = 3 + i
+                if p not in added:
+                    addrs = []
+                    if k == 'File':
+                        hsh = A.put_block(ex, st, Data([(50 + i, 0, size)]))
+                        addrs = [A.mk_addr(ex, hsh, 0, size)]
+                    ents.append(A.mk_entry(ex, p, k, 100 + i, addrs=addrs, mode=0o755 if k == 'Dir' else 0o644, owner=A.mk_owner(ex, 'root', 'root')))
+                if p not in removed:
+                    files.append(B.SrcFile(p, k, cls=50 + i, size=size, mtime=B.TimeV(100 + i, 0), mode=0o755 if k == 'Dir' else 0o644,
+                                           user='root', group='root'))
+            A.put_head(ex, st, 0)
+            A.put_hunk(ex, st, 0, 0, ents)
+            A.put_tail(ex, st, 0, 1)
+            st.mode = 'run'
+            tree = B.SourceTreeV(files)
+            kinds = dict(NESTED)
+            if callback:
+                events = []
+
+                def cb(ec):
+                    ec = deref(ec)
+                    ap = str_simplify(field(ex, ec, 'change::EntryChange', 'apath').fields[0])
+                    events.append((ap, variant_name(ex, field(ex, ec, 'change::EntryChange', 'change'))))
+                    return ok(UNIT)
+                opts = B.backup_options(ex, 1000, 1 << 20, 1 << 10, True)
+                env.set_field(ex, opts, 'backup::BackupOptions', 'change_callback', some(Agg('Box', None, [cb])))
+                r = B.run_backup(ex, ar, tree, opts)
+                if r[0] != 'ok':
+                    raise Unsupported('backup failed in the nested change-callback harness')
+                got = [e for e in events if e[1] != 'Unchanged']
+                want = sorted([(p, 'Deleted') for p in removed] + [(p, 'Added') for p in added if kinds[p] == 'File'], key=lambda t: B.apath_key(t[0]))
+                got = sorted(got, key=lambda t: B.apath_key(t[0]))
+            else:
+                B.install_source(ex, tree)
+                band = A.run_async(ex, A.fn_by(prog, 'Band', None, 'open'), [Ref([ar], 0), Agg('bandid::BandId', None, [0])])
+                stree = mk(ex, 'stored_tree::StoredTree', band=band.fields[0], archive=ar)
+                opts = mk(ex, 'diff::DiffOptions', exclude=A.ExcludeV(), include_unchanged=False)
+                r = A.run_async(ex, diff_name, [Ref([stree], 0), Ref([tree], 0), opts, A.monitor_arc(ex)])
+                cell = [r.fields[0]]
+                got = []
+                for _ in range(30):
+                    o = A.run_async(ex, nxt, [Ref(cell, 0, True)])
+                    if o.variant == 0:
+                        break
+                    ec = o.fields[0]
+                    got.append((str_simplify(field(ex, ec, 'change::EntryChange', 'apath').fields[0]),
+                                variant_name(ex, field(ex, ec, 'change::EntryChange', 'change'))))
+                want = sorted([(p, 'Deleted') for p in removed] + [(p, 'Added') for p in added], key=lambda t: B.apath_key(t[0]))
+            return got, want
+
+        def on_path(ex, out):
+            if out[0] == 'panic':
+                res['bad'].append({'kind': 'panic', 'msg': str(out[1])[:200], 'where': out[1].where, 'presence': 'nested'})
+                return
+            if out[0] != 'ok':
+                return
+            got, want = out[1]
+            if got != want:
+                res['bad'].append({'kind': 'wrong-diff-nested' if not callback else 'wrong-backup-changes-nested', 'got': got, 'want': want,
+                                   'presence': 'nested', 'removed': removed, 'added': added, 'kinds': {}})
+            elif not res['samples']:
+                res['samples'].append({'removed': removed, 'added': added, 'report': got})
+        return h, on_path, res
+    return mk_
